@@ -21,6 +21,9 @@ RULE = ("every run starts with fixed vectors: the witness (100, 90, generate, 11
         "negative and far exchange times, first snapshot at a negative time, equal / stale ones after), (3) full account snapshots WITHOUT balances and with the same asset two to four times "
         "(equal, rising, falling times inside one snapshot), (4) negative entry price / negative size / both on the direct path, the same record on two instruments, "
         "(5) 0 instruments (requests on an empty summary) or 4-5 instruments. corpus/C16K/domain.ops holds one hand-made case per class. "
+        "After the `d..` cases a separately seeded configuration-shape family (`cfg..`, N/8 cases; the other cases are unchanged by it): a starting state that is NOT empty - op `initb` configures INITIAL balances through EngineStateBuilder::balances "
+        "for a subset of the assets (levels of the walk, zero and negative ones; 10 % an asset twice: ONE point, the last; 3 % an unknown asset: the builder panics), alternately on the engine and the direct path, a quarter with an immediate request, 30 % with a snapshot from BEFORE the engine start, "
+        "then the events of a random case whose balance walk continues from the configured levels; corpus/C16K/cfg_initial_balances.ops holds hand-made cases (initial balance = the peak of a drawdown on both paths, an asset configured twice, unknown asset). "
         "A case is distinct by the SHA-1 of its op lines and non-trivial when the implementation's observation block "
         "changes at least once")
 ASSUMPTIONS = [
@@ -34,7 +37,7 @@ ASSUMPTIONS = [
     "asset curves whose first applied total is not positive (a balance that starts at 0, or a negative margin balance) are outside C18's documented domain (Drawdown.PositivePeaks): the oracle is SILENT on the three drawdown fields of such an asset and prints its balance only; the model mirrors the code, is compared on every case (generator class `zero-peak`, thorough enumeration over {0, -5, 10, 5}), and theorems asset_nonpositive_first_total / asset_zero_peak_witness state what both report: a non-positive first total is never the start of a drawdown, the decomposition continues from the first higher point (0, -5, 10, 5 -> a 50 % drawdown in progress since the peak 10). Instrument side likewise (C16M: PnL curves whose first value is not positive; measured by the theorem review (audit/sub/report_B.md): of 3778 generated instrument entries the oracle constrains calmar on 395, sortino on 991, sharpe on 1647 - the rest is model-vs-code only)",
     "drawdown subtraction overflow (`bal 0 0 7.9e28 1; bal 0 10 -7.9e28 1`: the code panics, the exact model continues) is C18's declared number-range boundary; not generated",
     "summary-level clock: on the direct path time_engine_start / time_engine_end are modelled and compared (the harness builds the generator with the real TradingSummaryGenerator::init and both clocks at the engine start); on the engine path Engine::trading_summary_generator reads them from EngineMeta.time_start / HistoricalClock::time(), which depend on the wall clock (C20K): parameters of the model, not compared",
-    "engine path: no initial balances are configured (EngineStateBuilder::balances would be one more snapshot at time_engine_start through the same guarded update)",
+    "initial balances (EngineStateBuilder::balances) are generated (`initb`, family `cfg..`) and modelled as what build() does with them: per configured asset (a HashMap: the last of two entries for one asset) one more snapshot at time_engine_start through the same guarded AssetState::update_from_balance, applied before the engine / the directly updated generator exists, so the direct path's summary clock stays at the engine start (Driver/C16K.lean initEvs / dedupLast); an entry for an exchange-asset the instruments do not contain panics inside build() (`panic` on all three sides). The instrument layout of this sub-check stays the alternating two-exchange one (other layouts: parent C16)",
     "the spec driver (oracle) recomputes every entry from that key's own history: instruments over exactly the key's exited positions (C16M's extended-value specification: silent on sentinel inputs to scale, non-whole-second intervals, results outside the Decimal range, C18 fields of PnL curves whose first value is not positive), assets over the snapshots that are not older than anything delivered before them for that asset (engine path; written without the register: runningMax) resp. over all of them (direct path); after a MUTATING generate on the direct path that happened while an entry had a drawdown in progress the oracle no longer constrains that entry's mean / max drawdown (and Calmar): theorem interleaved_generate_exact says exactly what they are, the concrete model mirrors it and is compared on every case",
     "a long-lived directly updated TradingSummaryGenerator whose generate() is called between updates reports mean / max drawdowns (and Calmar ratios) that double-count every drawdown that was in progress at a request (witness (100, 90, generate, 110): two drawdowns counted, maximum ending at t=10 instead of t=30); the engine path clones and is not affected; recorded as an observation (C18's examined boundary at the keyed level), not as a finding against C16",
 ]
